@@ -188,6 +188,46 @@ def _write_generated(path):
     for m in sorted(masks):
         o.append('        "%s" => match spirv::%s::from_bits(n) { Some(v) => format!("{{\\"some\\": true, \\"bits\\": {}, \\"all\\": {}}}", v.bits(), spirv::%s::all().bits()), None => format!("{{\\"some\\": false, \\"all\\": {}}}", spirv::%s::all().bits()) },' % (m, m, m, m))
     o.append('        _ => "{\\"error\\": \\"unknown mask\\"}".to_string(),\n    }\n}')
+    # parameterised operand kinds: reflection and parser side on the compiled crate
+    pk = [k for k, arm in tables.parse_operand_arms().items() if arm["args_fn"]]
+    o.append("""
+fn variant_name(op: &rspirv::dr::Operand) -> String {
+    let d = format!("{:?}", op);
+    d.split('(').next().unwrap_or("").to_string()
+}
+
+fn parsed_after(kind: rspirv::grammar::OperandKind, value: u32) -> String {
+    use rspirv::grammar as g;
+    let ops: &'static [g::LogicalOperand] = Box::leak(Box::new([g::LogicalOperand { kind, quantifier: g::OperandQuantifier::One }]));
+    let entry: &'static g::Instruction<'static> = Box::leak(Box::new(g::Instruction {
+        opname: "X", opcode: spirv::Op::Nop, capabilities: &[], extensions: &[], operands: ops }));
+    let mut words: Vec<u32> = vec![value];
+    for k in 0..24u32 { words.push(11 + k); }
+    let bytes: Vec<u8> = words.iter().flat_map(|w| w.to_le_bytes().to_vec()).collect();
+    let mut c = crate::consumer::Scripted::new(vec![]);
+    let (r, _off, _lim) = rspirv::binary::verif::parse_operands(&bytes, &mut c, words.len(), entry);
+    match r {
+        Ok(inst) => format!("[{}]", inst.operands.iter().skip(1).map(|o| format!("\\"{}\\"", variant_name(o))).collect::<Vec<_>>().join(", ")),
+        Err(e) => format!("[\\"error: {:?}\\"]", e).replace('\\\\', ""),
+    }
+}
+
+fn kinds_json(v: Vec<rspirv::grammar::LogicalOperand>) -> String {
+    format!("[{}]", v.iter().map(|o| format!("\\"{:?}\\"", o.kind)).collect::<Vec<_>>().join(", "))
+}
+""")
+    o.append("pub fn operand_params(kind: &str, n: u32) -> String {\n    use rspirv::dr::Operand;\n    match kind {")
+    for k in sorted(pk):
+        conv = "spirv::%s::from_bits(n)" % k if k in masks else "spirv::%s::from_u32(n)" % k
+        o.append('        "%s" => match %s { Some(v) => format!("{{\\"additional\\": {}, \\"parsed\\": {}}}", kinds_json(Operand::%s(v).additional_operands()), parsed_after(rspirv::grammar::OperandKind::%s, n)), None => "{\\"error\\": \\"undeclared value\\"}".to_string() },' % (k, conv, k, k))
+    o.append('        _ => "{\\"error\\": \\"unknown kind\\"}".to_string(),\n    }\n}\n')
+    o.append("pub fn operand_requires(kind: &str, n: u32) -> String {\n    use rspirv::dr::Operand;\n    match kind {")
+    for k in sorted(list(enums) + list(masks)):
+        if k in ("Op", "GLOp", "CLOp", "DebugPrintFOp"):
+            continue
+        conv = "spirv::%s::from_bits(n)" % k if k in masks else "spirv::%s::from_u32(n)" % k
+        o.append('        "%s" => match %s { Some(v) => { let op = Operand::%s(v); format!("{{\\"capabilities\\": [{}], \\"extensions\\": [{}]}}", op.required_capabilities().iter().map(|c| format!("\\"{:?}\\"", c)).collect::<Vec<_>>().join(", "), op.required_extensions().iter().map(|c| format!("\\"{}\\"", c)).collect::<Vec<_>>().join(", ")) } None => "{\\"error\\": \\"undeclared value\\"}".to_string() },' % (k, conv, k))
+    o.append('        _ => "{\\"error\\": \\"unknown kind\\"}".to_string(),\n    }\n}')
     txt = "\n".join(o) + "\n"
     if not os.path.exists(path) or open(path).read() != txt:
         with open(path, "w") as f:
